@@ -143,6 +143,21 @@ def _df_equal(a, b):
 
 
 # ----------------------------------------------------------------------------- op handlers
+def _layout(nd, mem, st):
+    """the caller's ndarray need not be a fresh C-contiguous array"""
+    if mem == "fortran" and nd.ndim >= 2:
+        st.probe("ndarray_fortran_ordered")
+        return np.asfortranarray(nd)
+    if mem == "reversed" and nd.ndim >= 1:
+        st.probe("ndarray_negative_strides")
+        return nd[::-1].copy()[::-1]
+    if mem == "strided" and nd.ndim >= 1:
+        st.probe("ndarray_strided_view")
+        big = np.repeat(nd, 2, axis=0)
+        return big[::2]
+    return nd
+
+
 def op_mk(st, op, info):
     via = op["via"]
     info.kind = "mk:" + via
@@ -188,7 +203,7 @@ def op_mk(st, op, info):
                 shp = ws[sf]
                 info.must_raise = "wrong-shape-rejected"
                 st.fault("wrong_shape_" + sf)
-        nd = int_values(op.get("vseed", 0), shp)
+        nd = _layout(int_values(op.get("vseed", 0), shp), op.get("mem"), st)
         info.raw.append(("ndarray", nd, nd.copy(), lambda s, o: values_equal(s, o)))
         r = call(st, op, lambda: FlodymArray(dims=ds, values=nd, name="mk"), info)
     elif via == "ctor_num":
@@ -435,7 +450,7 @@ def op_set_values(st, op, info):
             shp = ws[sf]
             info.must_raise = "wrong-shape-rejected"
             st.fault("wrong_shape_" + sf)
-        v = int_values(op.get("vseed", 0), shp)
+        v = _layout(int_values(op.get("vseed", 0), shp), op.get("mem"), st)
         info.raw.append(("ndarray", v, v.copy(), lambda s, o: values_equal(s, o)))
     call(st, op, lambda: t.set_values(v), info)
 
